@@ -2,7 +2,7 @@
 
 from __future__ import annotations
 
-from ..comp import CompScenario
+from ..comp import CompScenario, layout_from_spec, spec_leaves, to_leaf, spread, rand_leaf, rand_layout_spec, rand_shape_spec
 from ..propbase import PropBase, make_plan, phase_at
 
 
@@ -12,16 +12,21 @@ class Scen(CompScenario):
 
         c = self.cfg
         self.n = c["entries"]
-        self.afields = [(nm, w) for nm, w in c["addr_layout"]]
-        self.dfields = [(nm, w) for nm, w in c["data_layout"]]
-        self.kbits = sum(w for _, w in self.afields)
-        self.nkeys = 1 << self.kbits
-        self.dut = ContentAddressableMemory(self.afields, self.dfields, self.n)
+        # layouts: specs as in comp.layout_from_spec (the old [[name, width], ...] form included); keys are handled as
+        # bit patterns over all address leaves (first leaf = least significant bits)
+        self.aleafs = spec_leaves(c["addr_layout"])
+        self.dleafs = spec_leaves(c["data_layout"])
+        self.kbits = sum(w for _, w, _ in self.aleafs)
+        self.mul = c.get("tagmul", 1)
+        # the keys of this run: a small pool of (wide) random keys, so that the memory fills up although the key space is large
+        self.pool = list(c.get("keys") or range(1 << min(self.kbits, 3)))
+        obj = bool(c.get("layout_obj"))
+        self.dut = ContentAddressableMemory(layout_from_spec(c["addr_layout"], obj), layout_from_spec(c["data_layout"], obj), self.n)
         self.top.add("dut", self.dut)
         for name in ("push", "write", "read", "remove"):
             self.caller(name, getattr(self.dut, name))
         self.ports = ["push", "write", "read", "remove"]
-        self.d: dict = {}  # key -> tuple of data fields
+        self.d: dict = {}  # key -> tuple of data leaves
         self.tag = 0
         self.removed_ever: set = set()
         self.sweep = 0
@@ -30,36 +35,45 @@ class Scen(CompScenario):
     # ---- argument encoding ----------------------------------------------------------------
     def _put_key(self, stim, port, key):
         sh = 0
-        for nm, w in self.afields:
-            stim[f"{port}.i.addr.{nm}"] = (key >> sh) & ((1 << w) - 1)
+        for nm, w, sgn in self.aleafs:
+            stim[f"{port}.i.addr.{nm}"] = to_leaf(key >> sh, w, sgn)
             sh += w
 
     def _get_key(self, stim, port):
         key, sh = 0, 0
-        for nm, w in self.afields:
+        for nm, w, sgn in self.aleafs:
             v = stim.get(f"{port}.i.addr.{nm}", 0)
-            self.premise(0 <= v < (1 << w), "address field out of range")
-            key |= v << sh
+            self.premise(-(1 << (w - 1)) <= v < (1 << (w - 1)) if sgn else 0 <= v < (1 << w), "address field out of range")
+            key |= (v & ((1 << w) - 1)) << sh
             sh += w
         return key
 
     def _put_data(self, rng, stim, port):
         self.tag += 1
-        for k, (nm, w) in enumerate(self.dfields):
-            stim[f"{port}.i.data.{nm}"] = (self.tag if k == 0 else rng.getrandbits(w)) & ((1 << w) - 1)
+        for k, (nm, w, sgn) in enumerate(self.dleafs):
+            stim[f"{port}.i.data.{nm}"] = spread(self.tag, self.mul, w, sgn) if k == 0 else rand_leaf(rng, w, sgn)
 
     def _get_data(self, stim, port):
-        return tuple(stim.get(f"{port}.i.data.{nm}", 0) for nm, _ in self.dfields)
+        return tuple(stim.get(f"{port}.i.data.{nm}", 0) for nm, _, _ in self.dleafs)
 
     # ---- stimulus -------------------------------------------------------------------------
+    def _near(self, rng, key):
+        """A key differing from `key` in one bit (any position: a comparator that ignores a bit takes it for `key`)."""
+        return key ^ (1 << rng.randrange(self.kbits))
+
     def _key(self, rng, p_present):
         present = sorted(self.d)
-        absent = [k for k in range(self.nkeys) if k not in self.d]
-        if present and (not absent or rng.random() < p_present):
+        if present and rng.random() < p_present:
             return rng.choice(present)
+        r = rng.random()
+        if present and r < 0.3:
+            return self._near(rng, rng.choice(present))
+        if r < 0.4:
+            return rng.getrandbits(self.kbits)
+        absent = [k for k in self.pool if k not in self.d]
         if absent:
             return rng.choice(absent)
-        return rng.randrange(self.nkeys)
+        return rng.choice(present) if present else rng.getrandbits(self.kbits)
 
     def stimulus(self, rng, cyc):
         kind, p = phase_at(self.cfg["plan"], cyc)
@@ -74,7 +88,11 @@ class Scen(CompScenario):
         }[kind]
         stim = {}
         # push: never a key that is present (premise of the property); also requested while full
-        absent = [k for k in range(self.nkeys) if k not in self.d]
+        absent = [k for k in self.pool if k not in self.d]
+        if self.d and rng.random() < 0.25:  # a key one bit away from a stored one: two nearly equal keys side by side
+            near = self._near(rng, rng.choice(sorted(self.d)))
+            if near not in self.d:
+                absent = [near]
         push_key = None
         if absent and rng.random() < pp:
             # prefer keys that were stored before (re-use) now and then
@@ -104,8 +122,8 @@ class Scen(CompScenario):
             r = rng.random()
             touched = [k for k in (push_key, write_key, remove_key) if k is not None]
             if kind == "sweep":
-                self.sweep = (self.sweep + 1) % self.nkeys
-                read_key = self.sweep
+                self.sweep = (self.sweep + 1) % len(self.pool)
+                read_key = self.pool[self.sweep] if r < 0.7 else self._near(rng, self.pool[self.sweep])
             elif touched and r < (0.7 if kind == "samekey" else 0.35):
                 read_key = rng.choice(touched)  # read of a key pushed / written / removed in this very cycle
             else:
@@ -143,7 +161,7 @@ class Scen(CompScenario):
             self.expect(nf == int(k not in d), "read-not-found-mismatch",
                         f"read({k}) not_found={nf}, stored keys {sorted(d)}", port="read")
             if k in d:
-                got = tuple(obs[f"read.o.data.{nm}"] for nm, _ in self.dfields)
+                got = tuple(obs[f"read.o.data.{nm}"] for nm, _, _ in self.dleafs)
                 self.expect(got == d[k], "read-data-mismatch", f"read({k}) returned {got}, stored is {d[k]}", port="read")
         if done["write"]:
             k = key["write"]
@@ -183,8 +201,26 @@ class Scen(CompScenario):
             self.hit("read_key_written_same_cycle")
         if all(done.values()):
             self.hit("all_four_same_cycle")
+        # wide comparators: a key that differs from a stored one in a single bit / only above bit 8 / only below bit 8
+        for p in ("read", "write", "remove"):
+            if done[p] and key[p] not in d:
+                k = key[p]
+                if any(bin(k ^ s).count("1") == 1 for s in d):
+                    self.hit("absent_key_one_bit_from_stored_key")
+                if any((k ^ s) & 0xFF == 0 for s in d):
+                    self.hit("absent_key_differs_only_above_bit_7")
+        if done["read"] and kr in d:
+            if any(bin(kr ^ s).count("1") == 1 for s in d):
+                self.hit("read_present_next_to_key_one_bit_away")
+            if kr >> 8:
+                self.hit("read_present_key_wider_than_8_bits")
+            self.data_cov(d[kr])
+        if done["push"] and self.kbits > 3 and level == n - 1:
+            self.hit("full_with_wide_keys")
+        if done["push"] and n >= 7 and level == n - 1:
+            self.hit("full_with_7_or_8_entries")
 
-        mask = sum(1 << k for k in d)
+        mask = tuple(sorted(d))
         calls = tuple(p for p in self.ports if done[p])
         changing = done["push"] or (done["write"] and kw in d) or (done["remove"] and km in d)
         samekey = len({key[p] for p in calls}) < len(calls)
@@ -199,6 +235,21 @@ class Scen(CompScenario):
         if done["push"]:
             d[kp] = self._get_data(stim, "push")
 
+    def data_cov(self, got):
+        for (f, w, sgn), v in zip(self.dleafs, got):
+            if w >= 10 and (v if v >= 0 else v + (1 << w)) >> 9:
+                self.hit("returned_value_with_bits_above_9")
+            if sgn and v < 0:
+                self.hit("returned_negative_signed_field")
+        if len(self.dleafs) >= 3:
+            self.hit("returned_struct_of_3_or_more_leaves")
+        if any("." in f for f, _, _ in self.dleafs):
+            self.hit("returned_nested_or_array_field")
+        if any(sgn for _, _, sgn in self.aleafs):
+            self.hit("signed_key_field")
+        if any("." in f for f, _, _ in self.aleafs):
+            self.hit("nested_or_array_key_field")
+
 
 class Prop(PropBase):
     ID = "C24"
@@ -206,7 +257,9 @@ class Prop(PropBase):
         "quick": {"runs": 320, "selftest_runs": 4},
         "thorough": {"runs": 14000, "selftest_runs": 32},
     }
-    rule = ("one run = one (entries, address layout of 2-3 key bits, data layout) configuration driven for 80-240 cycles "
+    rule = ("one run = one (entries 1-8, address layout of 1-20 key bits: one field / two fields / signed / nested struct / "
+            "array, data layout: narrow tag or wide / signed / nested fields) configuration with a per-run pool of entries+1..+4 "
+            "random keys (plus keys one bit away from stored ones and fully random keys) driven for 80-240 cycles "
             "by a seeded phase plan (random / fill / drain / churn / samekey / sweep / idle); any subset of push, write, "
             "read, remove per cycle, push never with a present key; distinct = distinct (configuration, set of stored "
             "keys, executed call set, whether two calls name one key); non-trivial = a content-changing call executed "
@@ -215,7 +268,12 @@ class Prop(PropBase):
                     "write_present", "write_absent", "remove_present", "remove_absent", "read_present", "read_absent",
                     "write_and_remove_same_key", "push_with_remove_of_other_key", "push_with_remove_of_pushed_key",
                     "push_with_write_of_pushed_key", "read_key_pushed_same_cycle", "read_key_removed_same_cycle",
-                    "read_key_written_same_cycle", "all_four_same_cycle"]
+                    "read_key_written_same_cycle", "all_four_same_cycle",
+                    "absent_key_one_bit_from_stored_key", "absent_key_differs_only_above_bit_7",
+                    "read_present_next_to_key_one_bit_away", "read_present_key_wider_than_8_bits", "full_with_wide_keys",
+                    "full_with_7_or_8_entries", "returned_value_with_bits_above_9", "returned_negative_signed_field",
+                    "returned_struct_of_3_or_more_leaves", "returned_nested_or_array_field", "signed_key_field",
+                    "nested_or_array_key_field"]
     real = ["transactron.lib.storage.ContentAddressableMemory",
             "transactron.utils.amaranth_ext.elaboratables.MultiPriorityEncoder", "transactron.lib.adapters.AdapterTrans",
             "TransactionManager + scheduler", "amaranth pysim"]
@@ -223,25 +281,54 @@ class Prop(PropBase):
     assumptions = ["'a slot is free' (push readiness) is judged on the content at the beginning of the cycle: a remove executed "
                    "in the same cycle does not make room for the push; read / write answer for the content at the beginning "
                    "of the cycle; of the calls executed in one cycle write is applied first, then remove, then push"]
-    search_space = ("ContentAddressableMemory configurations (entries 1-6, 2-3 key bits, data layouts) and "
+    search_space = ("ContentAddressableMemory configurations (entries 1-8, 1-20 key bits in struct layouts, data layouts) and "
                     "push/write/read/remove call histories that never push a present key")
 
     def gen_config(self, rng, tier, idx):
         big = tier == "thorough"
-        n = rng.choice([1, 2, 3, 4, 5, 6] + ([7, 8] if big else []))
-        kb = rng.choice([2, 3, 3])
-        if rng.random() < 0.3:
+        n = rng.choice([1, 2, 3, 4, 5, 6, 2, 3, 4, 5, 6, 7, 8] + ([7, 8] if big else []))
+        r = rng.random()
+        if r < 0.25:  # the narrow keys the check always used: the whole key space is in play
+            kb = rng.choice([2, 3, 3])
+            if rng.random() < 0.3:
+                lo = rng.randint(1, kb - 1)
+                addr = [["lo", lo], ["hi", kb - lo]]
+            else:
+                addr = [["key", kb]]
+        elif r < 0.55:
+            addr = [["key", rng.choice([1, 4, 5, 8, 9, 11, 12, 16, 16])]]
+        elif r < 0.7:
+            kb = rng.choice([6, 9, 12, 16])
             lo = rng.randint(1, kb - 1)
             addr = [["lo", lo], ["hi", kb - lo]]
+        elif r < 0.82:
+            addr = [["key", ["s", rng.choice([1, 2, 7, 10, 16])]]] + ([["x", rng.choice([1, 3])]] if rng.random() < 0.5 else [])
         else:
-            addr = [["key", kb]]
-        data = [["tag", rng.randint(4, 8)]]
-        if rng.random() < 0.3:
-            data.append(["aux", rng.choice([1, 2, 5])])
+            addr = [["k", [["a", rng.choice([1, 3, 8])], ["b", rng.choice([2, 5, ["s", 4]])]]],
+                    ["c", rng.choice([1, 4, ["a", 3, 2], ["s", 6]])]]
+        if rng.random() < 0.55:
+            data = [["tag", rng.randint(4, 8)]]
+            if rng.random() < 0.3:
+                data.append(["aux", rng.choice([1, 2, 5])])
+        else:
+            # no array fields in the data layout: ContentAddressableMemory does not elaborate with them (AttributeError in
+            # transactron.utils.assign.arrayproxy_fields) -- reported, outside the statement
+            data = rand_layout_spec(rng, rich=True, arrays=False)
         cycles = rng.randint(80, 400 if big else 240)
         kinds = ["random", "random", "fill", "drain", "churn", "samekey", "sweep", "idle"]
-        return {"entries": n, "addr_layout": addr, "data_layout": data, "cycles": cycles,
-                "sched": rng.choice(["eager", "eager", "rr"]), "plan": make_plan(rng, cycles, kinds)}
+        cfg = {"entries": n, "addr_layout": addr, "data_layout": data, "cycles": cycles,
+               "sched": rng.choice(["eager", "eager", "rr"]), "plan": make_plan(rng, cycles, kinds)}
+        kbits = sum(w for _, w, _ in spec_leaves(addr))
+        size = min(1 << kbits, n + rng.randint(1, 4))
+        keys = rng.sample(range(1 << kbits), size)
+        if kbits > 3 and rng.random() < 0.5:  # the extreme patterns
+            keys[0] = rng.choice([0, (1 << kbits) - 1, 1 << (kbits - 1)])
+            keys = sorted(set(keys))
+            rng.shuffle(keys)
+        cfg["keys"] = keys
+        cfg["tagmul"] = rng.getrandbits(64) | 1
+        cfg["layout_obj"] = int(rng.random() < 0.25)
+        return cfg
 
     def make(self, cfg):
         return Scen(cfg)
@@ -250,7 +337,7 @@ class Prop(PropBase):
         return {"port": (viol.get("info") or {}).get("port")}
 
     def cfg_signature(self, cfg):
-        return [cfg["entries"], cfg["addr_layout"], cfg["data_layout"], cfg["sched"]]
+        return [cfg["entries"], cfg["addr_layout"], cfg["data_layout"], cfg["sched"], cfg.get("keys"), cfg.get("layout_obj", 0)]
 
     def shrink_cfg(self, cfg):
         n = cfg["entries"]
@@ -262,6 +349,10 @@ class Prop(PropBase):
         if len(cfg["data_layout"]) > 1:
             c = dict(cfg)
             c["data_layout"] = cfg["data_layout"][:1]
+            yield c
+        if cfg.get("layout_obj"):
+            c = dict(cfg)
+            c["layout_obj"] = 0
             yield c
         if cfg["sched"] != "eager":
             c = dict(cfg)
